@@ -75,7 +75,10 @@ package filesystem
 //gvc:end
 
 // SetIndex: what goes into the cache is a private copy, never the caller's
-// index or one of its entries.
+// index or one of its entries; and it is what a decode of the file just
+// written yields: index.Encoder writes the header, the entries and the
+// checksum only (no TREE / REUC / EOIE extension: encoder.go encode()), so the
+// cached index carries no extension data either.
 //gvc:func (*IndexStorage).SetIndex
 //gvc:  props C20
 //gvc:  theory int
@@ -85,4 +88,5 @@ package filesystem
 //gvc:  requires nn: s != nil && idx != nil
 //gvc:  modifies s.cache.#held
 //gvc:  sink Set requires private: arg0 != idx && forall(a, 0, len(idx.Entries), forall(b, 0, len(arg0.Entries), arg0.Entries[b] == nil || arg0.Entries[b] != idx.Entries[a]))
+//gvc:  sink Set requires aswritten: arg0.Cache == nil && arg0.ResolveUndo == nil && arg0.EndOfIndexEntry == nil
 //gvc:end
